@@ -4,6 +4,7 @@ import (
 	"fmt"
 	"go/token"
 	"go/types"
+	"regexp/syntax"
 	"sort"
 	"strings"
 
@@ -342,4 +343,274 @@ func ruleExportEsc(r *Run) {
 	}
 	r.Check("export-esc", shortName(fmtFn), fmtFn.Pos(), escaped,
 		"run text is wrapped in Markdown markers without escaping its own metacharacters (* _ ` | \\): text such as 2*3*4 or snake_case_name changes meaning when the Markdown is converted back, so export→import is not the identity")
+}
+
+// ---------------------------------------------------------------------------
+// R-FIXPOINT-PROGRESS (C19): "converting any byte string terminates".  The LaTeX conversion rewrites
+// to a fixpoint:  for re.MatchString(s) { s = re.ReplaceAllStringFunc(s, f) }.  The loop ends only if
+// every application of f removes the match it was given; a callback that can hand its argument
+// back unchanged ("leave \frac{}{2} as it is") keeps the condition true for ever.  A `return match`
+// is accepted only where it is infeasible: in the branch where FindStringSubmatch of the SAME
+// pattern on that match does not have NumSubexp+1 elements.
+// ---------------------------------------------------------------------------
+
+func ruleFixpointProgress(r *Run) {
+	p := r.P
+	n := 0
+	for _, fn := range p.ModFuncs() {
+		if fn.Pkg == nil || fn.Pkg.Pkg.Path() != pkgMd {
+			continue
+		}
+		for _, l := range naturalLoops(fn) {
+			iff, ok := l.Header.Instrs[len(l.Header.Instrs)-1].(*ssa.If)
+			if !ok {
+				continue
+			}
+			mc, ok := iff.Cond.(*ssa.Call)
+			if !ok || calleeName(mc) != "(*regexp.Regexp).MatchString" {
+				continue
+			}
+			re := mc.Call.Args[0]
+			pats := regexPatternsOf(re)
+			// the rewriting call in the body
+			for b := range l.Body {
+				for _, in := range b.Instrs {
+					rc, ok := in.(*ssa.Call)
+					if !ok || calleeName(rc) != "(*regexp.Regexp).ReplaceAllStringFunc" || len(rc.Call.Args) < 3 {
+						continue
+					}
+					if !sameRegexp(rc.Call.Args[0], re) {
+						continue
+					}
+					var lit *ssa.Function
+					switch f := rc.Call.Args[2].(type) {
+					case *ssa.MakeClosure:
+						lit, _ = f.Fn.(*ssa.Function)
+					case *ssa.Function:
+						lit = f
+					}
+					if lit == nil || len(lit.Params) != 1 {
+						continue
+					}
+					n++
+					match := ssa.Value(lit.Params[0])
+					nsub := -1
+					if len(pats) == 1 {
+						if rx, err := syntax.Parse(pats[0], syntax.Perl); err == nil {
+							nsub = rx.MaxCap()
+						}
+					}
+					bad := ""
+					for _, ret := range returnsOf(lit) {
+						v := retResult(ret, 0)
+						returnsArg := v == match
+						if ph, ok := v.(*ssa.Phi); ok {
+							for _, e := range ph.Edges {
+								if e == match {
+									returnsArg = true
+								}
+							}
+						}
+						if !returnsArg {
+							continue
+						}
+						if nsub >= 0 && infeasibleSubmatchLen(lit, ret.Block(), match, nsub+1) {
+							continue
+						}
+						bad = p.pos(ret.Pos())
+					}
+					r.Check("fixpoint-progress", fmt.Sprintf("%s#%d", shortName(fn), n), rc.Pos(), bad == "",
+						fmt.Sprintf("%s rewrites with ReplaceAllStringFunc until the pattern no longer matches; the callback can return its argument unchanged (%s): the text then still matches and the loop never ends — the conversion hangs on such input", shortName(fn), bad))
+				}
+			}
+		}
+	}
+	r.Min("fixpoint_rewrite_loops", n, 2)
+}
+
+func sameRegexp(a, b ssa.Value) bool {
+	if a == b {
+		return true
+	}
+	la, ok1 := a.(*ssa.UnOp)
+	lb, ok2 := b.(*ssa.UnOp)
+	if ok1 && ok2 && la.X == lb.X {
+		return true
+	}
+	fa, ok1 := a.(*ssa.FreeVar)
+	_ = fa
+	return resolveFree(a) == resolveFree(b)
+}
+
+// infeasibleSubmatchLen: block `at` of lit is reachable only when len(FindStringSubmatch(match)) != want.
+func infeasibleSubmatchLen(lit *ssa.Function, at *ssa.BasicBlock, match ssa.Value, want int) bool {
+	for _, b := range lit.Blocks {
+		if len(b.Instrs) == 0 || len(b.Succs) != 2 {
+			continue
+		}
+		iff, ok := b.Instrs[len(b.Instrs)-1].(*ssa.If)
+		if !ok {
+			continue
+		}
+		bo, ok := iff.Cond.(*ssa.BinOp)
+		if !ok || (bo.Op != token.EQL && bo.Op != token.NEQ) {
+			continue
+		}
+		k, isC := constInt(bo.Y)
+		lc, ok := bo.X.(*ssa.Call)
+		if !isC || !ok || int(k) != want {
+			continue
+		}
+		if bi, ok := lc.Call.Value.(*ssa.Builtin); !ok || bi.Name() != "len" {
+			continue
+		}
+		sm, ok := lc.Call.Args[0].(*ssa.Call)
+		if !ok || !strings.Contains(calleeName(sm), "FindStringSubmatch") || len(sm.Call.Args) < 2 || sm.Call.Args[1] != match {
+			continue
+		}
+		neq := b.Succs[1]
+		if bo.Op == token.NEQ {
+			neq = b.Succs[0]
+		}
+		eqS := b.Succs[0]
+		if bo.Op == token.NEQ {
+			eqS = b.Succs[1]
+		}
+		if edgeRegion(b, neq)[at] && !edgeRegion(b, eqS)[at] {
+			return true
+		}
+	}
+	return false
+}
+
+// ---------------------------------------------------------------------------
+// R-SOURCE-AGREE (C19): goldmark nodes carry byte offsets into the buffer that was PARSED; the
+// renderer must read text from that very buffer.  In the conversion entry point the value handed to
+// text.NewReader and the value stored as the renderer's source are the same SSA value (a normalised
+// copy for the parser with the original for the renderer shifts every segment).
+// ---------------------------------------------------------------------------
+
+func ruleSourceAgree(r *Run) {
+	p := r.P
+	n := 0
+	for _, fn := range p.ModFuncs() {
+		if fn.Pkg == nil || fn.Pkg.Pkg.Path() != pkgMd {
+			continue
+		}
+		var parsed []ssa.Value
+		allInstrs(fn, func(in ssa.Instruction) {
+			if c, ok := in.(*ssa.Call); ok && strings.HasSuffix(calleeName(c), "goldmark/text.NewReader") {
+				parsed = append(parsed, c.Call.Args[0])
+			}
+		})
+		if len(parsed) == 0 {
+			continue
+		}
+		// []byte values stored into fields of a renderer built here, or passed to module functions
+		allInstrs(fn, func(in ssa.Instruction) {
+			st, ok := in.(*ssa.Store)
+			if !ok || st.Val.Type().String() != "[]byte" {
+				return
+			}
+			fv, base := fieldOfAddr(st.Addr)
+			if fv == nil {
+				return
+			}
+			if _, fresh := stripLoads(base).(*ssa.Alloc); !fresh {
+				return
+			}
+			n++
+			same := false
+			for _, pv := range parsed {
+				if pv == st.Val {
+					same = true
+				}
+			}
+			r.Check("source-agree", shortName(fn)+":"+fv.Name(), st.Pos(), same,
+				fmt.Sprintf("%s parses one byte slice and gives the renderer another (%s) as the source the node offsets refer to: every text segment is read at the wrong position as soon as the two differ (CRLF input, a BOM)", shortName(fn), fv.Name()))
+		})
+	}
+	r.Min("renderer_source_stores", n, 1)
+}
+
+// ---------------------------------------------------------------------------
+// R-EXPORT-ALL-CELLS (C20): "every run's text present exactly once" — for tables: every cell of
+// every row is exported.  Rows of a document table differ in length (horizontal merges remove
+// cells), so the cells of a row must be visited by a range over THAT row's cells; a counted loop
+// bounded by the header's cell count drops the surplus cells of longer rows.
+// ---------------------------------------------------------------------------
+
+func ruleExportAllCells(r *Run) {
+	p := r.P
+	n := 0
+	for _, fn := range p.ModFuncs() {
+		if fn.Pkg == nil || fn.Pkg.Pkg.Path() != pkgMd {
+			continue
+		}
+		loops := naturalLoops(fn)
+		allInstrs(fn, func(in ssa.Instruction) {
+			c, ok := in.(*ssa.Call)
+			if !ok {
+				return
+			}
+			cal := staticCallee(c)
+			if cal == nil || !p.inModule(cal) || cal.Pkg == nil || cal.Pkg.Pkg.Path() != pkgMd {
+				return
+			}
+			ai := -1
+			for i, par := range cal.Params {
+				if typeIs(par.Type(), pkgDoc, "TableCell") {
+					ai = i
+				}
+			}
+			if ai < 0 || ai >= len(c.Call.Args) || typeIs(fnRecvOrNil(fn), pkgDoc, "TableCell") {
+				return
+			}
+			var l *natLoop
+			for _, cand := range loops {
+				if cand.Body[c.Block()] && (l == nil || len(cand.Body) < len(l.Body)) {
+					l = cand
+				}
+			}
+			if l == nil {
+				return
+			}
+			n++
+			ri := rangeOf(l)
+			ok2 := false
+			why := "the cells are visited by a counted loop whose bound is not the length of the row's own cell list"
+			if ri != nil && sliceOfPtrTo(ri.X.Type(), pkgDoc, "TableCell") {
+				arg := c.Call.Args[ai]
+				if copyOfLoopElem(arg, ri.Elem, 0) {
+					ok2 = true
+				}
+				for _, le := range ri.Elem {
+					if arg == le {
+						ok2 = true
+					}
+					// &cell of the range variable that received the element
+					if al, ok := arg.(*ssa.Alloc); ok && al.Referrers() != nil {
+						for _, u := range *al.Referrers() {
+							if st, ok := u.(*ssa.Store); ok && st.Addr == ssa.Value(al) && copyOfLoopElem(st.Val, ri.Elem, 0) {
+								ok2 = true
+							}
+						}
+					}
+				}
+				if !ok2 {
+					why = "the cell handed on is not the element of the range over the row's cells"
+				}
+			}
+			r.Check("export-all-cells", fmt.Sprintf("%s#%d", shortName(fn), n), c.Pos(), ok2,
+				fmt.Sprintf("%s exports table cells: every cell of a row must be visited (range over that row's Cells): %s", shortName(fn), map[bool]string{true: "yes", false: why + " — rows can be longer than the header row (merged header), and their surplus cells never reach the Markdown"}[ok2]))
+		})
+	}
+	r.Min("cell_export_sites", n, 2)
+}
+
+func fnRecvOrNil(fn *ssa.Function) types.Type {
+	if fn.Signature.Recv() != nil {
+		return fn.Signature.Recv().Type()
+	}
+	return types.Typ[types.Invalid]
 }
